@@ -97,8 +97,19 @@ func runC04State(c *fw.Ctx) {
 			cp.KShare = curve.Secp256k1{}.NewScalar().Set(pre.KShare).Add(one)
 		}
 		np := map[party.ID]*ecdsa.PreSignature{}
+		// between the offline and the online phase a presignature is normally stored: in half of the
+		// worlds every honest signer works with a stored-and-restored copy
+		stored := c.S.Draw(2, "presignatures-stored-and-restored") == 1
 		for k, v := range sc.Pre {
 			np[k] = v
+			if stored && k != cheater {
+				if b, err := scen.Persist(v); err == nil {
+					if r, rerr := scen.Restore(v, b); rerr == nil {
+						np[k] = r.(*ecdsa.PreSignature)
+						c.Probe("online_phase_with_restored_presignature", 1)
+					}
+				}
+			}
 		}
 		np[cheater] = &cp
 		sc.Pre = np
